@@ -21,8 +21,10 @@ type exitLogger struct{}
 
 type exitPanic struct{ msg string }
 
-func (exitLogger) Print(v ...interface{})                 { panic(exitPanic{fmt.Sprint(v...)}) }
-func (exitLogger) Printf(format string, v ...interface{}) { panic(exitPanic{fmt.Sprintf(format, v...)}) }
+func (exitLogger) Print(v ...interface{}) { panic(exitPanic{fmt.Sprint(v...)}) }
+func (exitLogger) Printf(format string, v ...interface{}) {
+	panic(exitPanic{fmt.Sprintf(format, v...)})
+}
 
 // InstallLogger must be called by the check before the first history runs.
 func InstallLogger() { restful.SetLogger(exitLogger{}) }
